@@ -1,4 +1,5 @@
 import Spydr.IR.Props.C10
+import Spydr.IR.Props.C10Tbl
 open Spydr.Names
 #print axioms Spydr.Names.init_nsinv
 #print axioms Spydr.Names.step_nsinv
@@ -13,3 +14,8 @@ open Spydr.Names
 #print axioms Spydr.Names.register_nsinv
 #print axioms Spydr.Names.applyNs_nsinv
 #print axioms Spydr.Names.attach_nsinv
+#print axioms Spydr.Names.step_nstbl
+#print axioms Spydr.Names.run_nstbl
+#print axioms Spydr.Names.names_unique_observable
+#print axioms Spydr.Names.idents_unique_ci_observable
+#print axioms Spydr.Names.ident_refused_iff
